@@ -17,7 +17,14 @@ Directive grammar (one per line, all start with `//@ `):
         //@ after <anchor>  (ghost text inserted after the statement that starts with anchor)
         //@ entry           (ghost text inserted at the beginning of the body)
         //@ closure <k> :: <typed params> -> (<name>: <type>)   (text: ensures clauses)
+            //@ bind <name> = <expr>   (R9l: <expr> starts a statement / the tail expression and is the receiver of a method
+                                        chain; it is let-bound to <name> first and the ghost text follows the binding)
     //@ end
+    //@ import <unit> :: <impl-header regex | -> :: <name> [:: opt=value ...]
+        (no sub-directives, no //@ end)  the fn is NOT extracted: its signature is re-extracted as for a stubbed fn and
+        emitted `external_body` under the `//@ spec` text of the `//@ fn` block for this fn in units/<unit>.vxu, verbatim,
+        obligation tags stripped (see emit_import).  Options = those of the exporting block, overridden by the ones given;
+        import-only option `only=tag1,tag2`: of the `ensures` clauses keep those tagged with one of these obligations.
 
     options:  mod=a::b   (item lives in nested module a::b of the file)
               attr=...   (attribute put in front of the item)
@@ -678,6 +685,8 @@ class FnSpec:
         # hints written `//@ before* <anchor>` / `//@ after* <anchor>`: stand-alone ghost snapshots that other
         # contract text (loop invariants) depends on; kept in degraded mode as long as their own anchor exists
         self.standalone = set()
+        # (additive) `//@ bind <name> = <anchor>` hints: [(name, anchor expression text, ghost text)] - R9l
+        self.binds = []
 
 
 def name_return(sig: str, ret_name: str) -> str:
@@ -735,6 +744,28 @@ def apply_fn_spec(text: str, spec: FnSpec, what: str, lost=None):
     if spec.entry.strip():
         check_ghost_only(spec.entry, what + " entry")
         ins.append((1, "\n" + spec.entry.rstrip() + "\n"))
+    for bname, anchor, g in getattr(spec, "binds", []):
+        # R9l (additive): `//@ bind NAME = EXPR` - EXPR begins a statement (or the tail expression) and is the receiver of a
+        # method chain (`EXPR.m(..)` / `EXPR?`).  It is bound to an immutable local first, `let NAME = EXPR; <ghost> NAME.m(..)`,
+        # so that ghost text can speak about the value between the call and its use (a receiver is evaluated before the rest
+        # of the chain anyway; same idea as R9t for tail expressions).  Anything else is a lost anchor (fn degraded).
+        check_ghost_only(g, what + " bind " + bname)
+        try:
+            ls, i0 = statement_start_of(body, bm, anchor, what)
+        except ScanError as e:
+            lost.append(str(e))
+            continue
+        a_txt = re.sub(r"\s##\d+$", "", anchor)
+        e0 = i0 + len(a_txt)
+        prev = bm[:ls].rstrip()
+        am = mask(a_txt)
+        balanced = all(am.count(o) == am.count(c) for o, c in ("()", "[]", "{}"))
+        if (body[ls:i0].strip() or not prev or prev[-1] not in ";{}" or not balanced or not re.match(r"\s*(\.(?!\.)|\?)", bm[e0:])
+                or re.search(r"\b%s\b" % re.escape(bname), bm)):
+            lost.append("lost anchor: bind %s = %r in %s (not the receiver at the start of a statement, or the name is taken)" % (bname, a_txt, what))
+            continue
+        ins.append((e0, None, i0, bname))
+        ins.append((ls, body[ls:i0] + "let " + bname + " = " + a_txt + ";\n" + g.rstrip() + "\n"))
     for anchor, g in spec.before:
         check_ghost_only(g, what + " before " + anchor)
         if anchor == "@return":
@@ -941,6 +972,9 @@ class Unit:
         self.stubbed = {}   # fn key -> reason (body not verified: its obligations are undecided)
         self.fn_lines = {}  # fn key -> (first line, last line) of the emitted text, 1-based
         self.fn_has_hints = {}
+        # (additive) fn key -> {"unit", "export_key", "file", "name", "only", "line"}: contracts imported from the unit that
+        # proves them (`//@ import`); they own no obligation here, ./check ties their status to the exporting unit
+        self.imports = {}
 
     def emit(self, text: str, origin):
         for ln in text.split("\n"):
@@ -1009,80 +1043,13 @@ def build_unit(unit_name: str, reach: bool = False, mutate=None, stub=None, nohi
             u.emit("// structural obligation %s [%s]: %s" % (mo.group(1), ",".join(props), "ok" if not bad else "VIOLATED: " + "; ".join(bad)), ("spec", "structural"))
             i += 1
         elif kind == "fn":
-            body = d[2:].strip()
-            segs = [x.strip() for x in split_top(body)]
-            if len(segs) < 3:
-                raise ScanError("bad fn directive: " + d)
-            fpath, impl_pat, name = segs[0], segs[1], segs[2]
-            spec = FnSpec()
-            spec.opts = parse_opts(segs[3:])
-            i += 1
-            cur = None
-            buf = []
-
-            def flush():
-                nonlocal cur, buf
-                txt = "\n".join(buf)
-                if cur is None:
-                    if txt.strip():
-                        raise ScanError("text outside a sub-directive in fn directive %s" % name)
-                elif cur[0] == "spec":
-                    spec.spec = txt
-                elif cur[0] == "loop":
-                    spec.loops[int(cur[1])] = txt
-                elif cur[0] == "before":
-                    spec.before.append((cur[1], txt))
-                elif cur[0] == "after":
-                    spec.after.append((cur[1], txt))
-                elif cur[0] == "entry":
-                    spec.entry = txt
-                elif cur[0] == "exit":
-                    spec.exit = txt
-                elif cur[0] == "closure":
-                    spec.closures[int(cur[1])] = (cur[2], txt)
-                cur, buf = None, []
-
-            while i < n:
-                l2 = raw[i]
-                s2 = l2.strip()
-                if s2.startswith("//@"):
-                    d2 = s2[3:].strip()
-                    k2 = d2.split()[0]
-                    if k2 == "end":
-                        flush()
-                        i += 1
-                        break
-                    flush()
-                    if k2 == "attr":
-                        spec.attrs.append(d2.split(None, 1)[1])
-                    elif k2 == "spec":
-                        cur = ("spec",)
-                    elif k2 == "entry":
-                        cur = ("entry",)
-                    elif k2 == "exit":
-                        cur = ("exit",)
-                    elif k2 == "loop":
-                        cur = ("loop", d2.split()[1])
-                        mo_it = re.search(r"::\s*iter=([A-Za-z_][A-Za-z0-9_]*)", d2)
-                        if mo_it:
-                            spec.opts.setdefault("loop_iter", {})[int(d2.split()[1])] = mo_it.group(1)
-                    elif k2 in ("before", "after"):
-                        cur = (k2, d2.split(None, 1)[1])
-                    elif k2 in ("before*", "after*"):
-                        cur = (k2[:-1], d2.split(None, 1)[1])
-                        spec.standalone.add((cur[0], cur[1]))
-                    elif k2 == "closure":
-                        rest = d2.split(None, 1)[1]
-                        kk, head = [x.strip() for x in rest.split("::", 1)]
-                        cur = ("closure", kk, head)
-                    else:
-                        raise ScanError("unknown sub-directive %s" % k2)
-                else:
-                    buf.append(l2)
-                i += 1
-            else:
-                raise ScanError("missing //@ end for fn %s" % name)
+            fpath, impl_pat, name, spec, i = parse_fn_directive(raw, i, d)
             emit_fn(u, fpath, impl_pat, name, spec, reach, mutate)
+        elif kind == "import":
+            # (additive) `//@ import <unit> :: <impl-header regex | -> :: <fn name> [:: opt=value ..]`: the contract that
+            # unit <unit> PROVES on the real body of the fn, as an external_body stub in this unit (see emit_import)
+            emit_import(u, d)
+            i += 1
         else:
             raise ScanError("unknown directive: " + d)
     # obligations: scan the emitted lines
@@ -1107,6 +1074,93 @@ def build_unit(unit_name: str, reach: bool = False, mutate=None, stub=None, nohi
                 u.obligations[oname] = {"props": props, "lines": [ln_no], "text": clause[:600],
                                         "sufficient_only": bool(mm.group(3))}
     return u
+
+
+def parse_fn_directive(raw, i, d):
+    """parses one `//@ fn ..` block (header line `d` at raw[i], sub-directives, `//@ end`).
+    Returns (file, impl pattern, fn name, FnSpec, index of the line after `//@ end`)."""
+    n = len(raw)
+    body = d[2:].strip()
+    segs = [x.strip() for x in split_top(body)]
+    if len(segs) < 3:
+        raise ScanError("bad fn directive: " + d)
+    fpath, impl_pat, name = segs[0], segs[1], segs[2]
+    spec = FnSpec()
+    spec.opts = parse_opts(segs[3:])
+    i += 1
+    cur = None
+    buf = []
+
+    def flush():
+        nonlocal cur, buf
+        txt = "\n".join(buf)
+        if cur is None:
+            if txt.strip():
+                raise ScanError("text outside a sub-directive in fn directive %s" % name)
+        elif cur[0] == "spec":
+            spec.spec = txt
+        elif cur[0] == "loop":
+            spec.loops[int(cur[1])] = txt
+        elif cur[0] == "before":
+            spec.before.append((cur[1], txt))
+        elif cur[0] == "after":
+            spec.after.append((cur[1], txt))
+        elif cur[0] == "entry":
+            spec.entry = txt
+        elif cur[0] == "exit":
+            spec.exit = txt
+        elif cur[0] == "closure":
+            spec.closures[int(cur[1])] = (cur[2], txt)
+        elif cur[0] == "bind":
+            spec.binds.append((cur[1], cur[2], txt))
+        cur, buf = None, []
+
+    while i < n:
+        l2 = raw[i]
+        s2 = l2.strip()
+        if s2.startswith("//@"):
+            d2 = s2[3:].strip()
+            k2 = d2.split()[0]
+            if k2 == "end":
+                flush()
+                i += 1
+                break
+            flush()
+            if k2 == "attr":
+                spec.attrs.append(d2.split(None, 1)[1])
+            elif k2 == "spec":
+                cur = ("spec",)
+            elif k2 == "entry":
+                cur = ("entry",)
+            elif k2 == "exit":
+                cur = ("exit",)
+            elif k2 == "loop":
+                cur = ("loop", d2.split()[1])
+                mo_it = re.search(r"::\s*iter=([A-Za-z_][A-Za-z0-9_]*)", d2)
+                if mo_it:
+                    spec.opts.setdefault("loop_iter", {})[int(d2.split()[1])] = mo_it.group(1)
+            elif k2 in ("before", "after"):
+                cur = (k2, d2.split(None, 1)[1])
+            elif k2 in ("before*", "after*"):
+                cur = (k2[:-1], d2.split(None, 1)[1])
+                spec.standalone.add((cur[0], cur[1]))
+            elif k2 == "closure":
+                rest = d2.split(None, 1)[1]
+                kk, head = [x.strip() for x in rest.split("::", 1)]
+                cur = ("closure", kk, head)
+            elif k2 == "bind":
+                mo_b = re.match(r"bind\s+([A-Za-z_][A-Za-z0-9_]*)\s*=\s*(.+)$", d2)
+                if not mo_b:
+                    raise ScanError("bad bind sub-directive: %s" % d2)
+                cur = ("bind", mo_b.group(1), mo_b.group(2).strip())
+            else:
+                raise ScanError("unknown sub-directive %s" % k2)
+        else:
+            buf.append(l2)
+        i += 1
+    else:
+        raise ScanError("missing //@ end for fn %s" % name)
+    return fpath, impl_pat, name, spec, i
 
 
 def split_top(s: str):
@@ -1261,7 +1315,9 @@ def pub_fields(t: str) -> str:
     return t[:bo + 1] + body + t[bc:]
 
 
-def emit_fn(u: Unit, fpath, impl_pat, name, spec: FnSpec, reach: bool, mutate):
+def emit_fn(u: Unit, fpath, impl_pat, name, spec: FnSpec, reach: bool, mutate, imp=None):
+    """imp (additive, set by emit_import only): the fn is NOT extracted - only its signature is emitted, exactly as for a
+    stubbed fn, under the contract text of `spec` (which emit_import took from the exporting unit)."""
     src = source(fpath)
     lo, hi = mod_range(src, spec.opts.get("mod", ""))
     if impl_pat == "-":
@@ -1276,7 +1332,7 @@ def emit_fn(u: Unit, fpath, impl_pat, name, spec: FnSpec, reach: bool, mutate):
     what = "fn %s%s (%s)" % ((re.sub(r"\s+", " ", header) + " :: ") if header else "", name, fpath)
     key = fn_key(header, spec.opts.get("as", name))
     line0 = len(u.lines) + 1
-    u.fn_has_hints[key] = bool(spec.before or spec.after or spec.exit.strip())
+    u.fn_has_hints[key] = bool(spec.before or spec.after or spec.exit.strip() or spec.binds)
     rw = Rewriter(text, what)
     rw.unpinned = set(x.strip() for x in spec.opts.get("unpinned", "").split(",") if x.strip())
     rw.proj_enums = proj_types_of(src)
@@ -1298,8 +1354,13 @@ def emit_fn(u: Unit, fpath, impl_pat, name, spec: FnSpec, reach: bool, mutate):
     except Unsupported as e:
         # a construct outside the rewrite table appeared in this fn: keep its contract for the callers,
         # its own obligations become undecided (never a violation)
-        u.stubbed[key] = str(e)
+        if imp is None:
+            u.stubbed[key] = str(e)
         t = None
+    if t is None and imp is not None:  # import: the body is not needed, the raw signature will do
+        emit_stub(u, text, header, spec, what, key, rw, imp=imp)
+        u.fn_lines[key] = (line0, len(u.lines))
+        return key
     if key in u.stubbed:  # rewriting itself failed: stub from the raw signature
         emit_stub(u, text, header, spec, what, key, rw)
         u.fn_lines[key] = (line0, len(u.lines))
@@ -1312,6 +1373,7 @@ def emit_fn(u: Unit, fpath, impl_pat, name, spec: FnSpec, reach: bool, mutate):
         spec.before = [(a, g) for (a, g) in spec.before if ("before", a) in spec.standalone]
         spec.after = [(a, g) for (a, g) in spec.after if ("after", a) in spec.standalone]
         spec.exit = ""
+        spec.binds = []
     # R10b: associated types `type X = Y;` of a trait impl.  When the trait is dropped (R10) every
     # `Self::X` in the fn text is replaced by its definition Y taken from the same impl block; when the
     # trait is kept they are emitted inside the impl.  Additive: fires only if the text mentions `Self::X`
@@ -1361,6 +1423,10 @@ def emit_fn(u: Unit, fpath, impl_pat, name, spec: FnSpec, reach: bool, mutate):
             t, k = rewrites_fnptr.apply_types1(t, what, Unsupported)
             rw.note("R28p", k)
         except Unsupported as e:
+            if imp is not None:
+                emit_stub(u, t, header, spec, what, key, rw, rewritten=True, imp=imp)
+                u.fn_lines[key] = (line0, len(u.lines))
+                return key
             u.stubbed[key] = str(e)
             emit_stub(u, t, header, spec, what, key, rw, rewritten=True)
             u.fn_lines[key] = (line0, len(u.lines))
@@ -1373,6 +1439,11 @@ def emit_fn(u: Unit, fpath, impl_pat, name, spec: FnSpec, reach: bool, mutate):
         # inherent method (R10) it has to be `pub` to be callable from another module of the unit
         t = re.sub(r"^(\s*)fn\b", r"\1pub fn", t, count=1)
         rw.note("R10v")
+    if imp is not None:
+        # imported contract: signature after all rewrites (what the exporting unit emits when it stubs the fn) + contract
+        emit_stub(u, t, header, spec, what, key, rw, rewritten=True, imp=imp)
+        u.fn_lines[key] = (line0, len(u.lines))
+        return key
     if key in u.stub:
         # body rejected by the Verus front end: keep signature (after all rewrites) + contract only
         u.stubbed[key] = "body rejected by the Verus front end"
@@ -1395,10 +1466,11 @@ def emit_fn(u: Unit, fpath, impl_pat, name, spec: FnSpec, reach: bool, mutate):
         spec.before = [(a, g) for (a, g) in spec.before if ("before", a) in spec.standalone]
         spec.after = [(a, g) for (a, g) in spec.after if ("after", a) in spec.standalone]
         spec.exit = ""
+        spec.binds = []
         lost2 = []
         t = apply_fn_spec(t0, spec, what, lost2)
         if lost2:
-            spec.before, spec.after = [], []
+            spec.before, spec.after, spec.binds = [], [], []
             t = apply_fn_spec(t0, spec, what, [])
     u.emit("// ---- extracted: %s  [%s] ----" % (what, ", ".join(rw.applied)), ("spec", "marker"))
     if header is not None:
@@ -1550,7 +1622,7 @@ def fn_key(header, emitted_name: str) -> str:
     return owner + "::" + emitted_name
 
 
-def emit_stub(u, text, header, spec, what, key, rw, rewritten=False):
+def emit_stub(u, text, header, spec, what, key, rw, rewritten=False, imp=None):
     """signature + contract of the fn, body replaced: callers are still checked against the contract"""
     srw = Rewriter(text, what)
     m = mask(text)
@@ -1580,7 +1652,14 @@ def emit_stub(u, text, header, spec, what, key, rw, rewritten=False):
     if spec.spec.strip():
         out += "\n" + spec.spec.rstrip() + "\n"
     out += "{ unimplemented!() }"
-    u.emit("// ---- STUBBED (body not verified: %s): %s ----" % (u.stubbed[key], what), ("spec", "marker"))
+    org = ("stub", what)
+    if imp is not None:
+        # (additive) origin `import`: runner.scan_assumptions lists the stub as `imported-contract`, not as an assumption
+        org = ("import", "%s imported from unit %s" % (key, imp["unit"]))
+        u.emit("// ---- IMPORTED from unit %s (contract text of its `//@ fn .. :: %s`, proved there on the real body; obligation tags stripped%s): %s ----"
+               % (imp["unit"], imp["name"], "; ensures clauses kept: " + ",".join(imp["only"]) if imp.get("only") else "", what), ("spec", "marker"))
+    else:
+        u.emit("// ---- STUBBED (body not verified: %s): %s ----" % (u.stubbed[key], what), ("spec", "marker"))
     if header is not None:
         hrw = Rewriter(header, what)
         hrw.r3_visibility()
@@ -1591,11 +1670,166 @@ def emit_stub(u, text, header, spec, what, key, rw, rewritten=False):
             h = spec.opts["impl_header"]
         if "for_trait" in spec.opts:
             h = for_trait_header(hrw.t, spec.opts["for_trait"])
-        u.emit(h + " {", ("stub", what))
-        u.emit(indent(out, "    "), ("stub", what))
-        u.emit("}", ("stub", what))
+        u.emit(h + " {", org)
+        u.emit(indent(out, "    "), org)
+        u.emit("}", org)
     else:
-        u.emit(out, ("stub", what))
+        u.emit(out, org)
+
+
+# ----------------------------------------------------------------------------
+# imported contracts (additive): `//@ import <unit> :: <impl-header regex | -> :: <fn name> [:: opt=value ..]`
+# ----------------------------------------------------------------------------
+SPEC_KEYWORDS = ("requires", "ensures", "decreases", "recommends", "returns", "no_unwind", "opens_invariants")
+_EXPORT_CACHE = {}
+
+
+def export_directives(unit_name: str):
+    """the `//@ fn` blocks of units/<unit>.vxu: [(file, impl pattern, fn name, FnSpec, line number)]"""
+    if unit_name not in _EXPORT_CACHE:
+        path = os.path.join(VX, "units", unit_name + ".vxu")
+        if not os.path.exists(path):
+            raise ScanError("lost anchor: import from unit %s: %s does not exist" % (unit_name, path))
+        with open(path) as f:
+            raw = f.read().split("\n")
+        res, i = [], 0
+        while i < len(raw):
+            st = raw[i].strip()
+            if st.startswith("//@") and (st[3:].strip().split() or [""])[0] == "fn":
+                ln = i + 1
+                fpath, impl_pat, name, spec, i = parse_fn_directive(raw, i, st[3:].strip())
+                res.append((fpath, impl_pat, name, spec, ln))
+            else:
+                i += 1
+        _EXPORT_CACHE[unit_name] = res
+    return _EXPORT_CACHE[unit_name]
+
+
+def strip_obligation_tags(text: str) -> str:
+    """`clause, //# name [Cxx]` -> `clause,`: the importing unit does not own the exporting unit's obligations"""
+    return "\n".join(re.sub(r"[ \t]*//#.*$", "", ln) for ln in text.split("\n"))
+
+
+def spec_clauses(text: str):
+    """contract text -> [(section keyword, [clause, ..])], a clause being a list of lines.  Line based: a section starts at a
+    line beginning with a contract keyword; inside a section a clause ends with the line after which the bracket depth
+    is 0 and whose code ends in `,` (the convention of the unit files: tag on the LAST line of a clause)."""
+    secs, cur_kw, cur_clauses, clause, depth = [], None, [], [], 0
+    for ln in text.split("\n"):
+        code = mask(ln).split("//")[0].rstrip()
+        mk = re.match(r"\s*(%s)\b(.*)$" % "|".join(SPEC_KEYWORDS), code) if depth == 0 and not clause_has_code(clause) else None
+        if mk:
+            if cur_kw is not None or clause:
+                if clause:
+                    cur_clauses.append(clause)
+                secs.append((cur_kw, cur_clauses))
+            cur_kw, cur_clauses, clause = mk.group(1), [], []
+            rest = mk.group(2)
+            if not rest.strip():
+                continue
+            ln = " " * (len(ln) - len(ln.lstrip())) + "    " + ln[mk.start(2):].lstrip()
+            code = mask(ln).split("//")[0].rstrip()
+        clause.append(ln)
+        for c in code:
+            if c in "([{":
+                depth += 1
+            elif c in ")]}":
+                depth -= 1
+        if depth == 0 and code.endswith(","):
+            cur_clauses.append(clause)
+            clause = []
+    if clause:
+        cur_clauses.append(clause)
+    if cur_kw is not None or cur_clauses:
+        secs.append((cur_kw, cur_clauses))
+    return secs
+
+
+def clause_has_code(clause) -> bool:
+    return any(mask(l).split("//")[0].strip() for l in clause)
+
+
+def select_ensures(text: str, only, what: str) -> str:
+    """import option `only=tag1,tag2`: keep `requires` (and every other section) whole, of `ensures` only the clauses that
+    carry one of the listed obligation names.  Dropping postconditions of a proved contract only weakens what the
+    importing unit may assume.  Every listed name must be found (a renamed / deleted clause is a lost anchor)."""
+    found, out = set(), []
+    for kw, clauses in spec_clauses(text):
+        kept = []
+        for cl in clauses:
+            if kw != "ensures":
+                kept.append(cl)
+                continue
+            tags = {mm.group(1) for l in cl for mm in OBL_RE.finditer(l)}
+            if tags & set(only):
+                found |= tags & set(only)
+                kept.append(cl)
+        if kw == "ensures" and not kept:
+            continue
+        if kw is not None and clause_has_code([l for cl in kept for l in cl]):
+            out.append("    " + kw)
+        for cl in kept:
+            out.extend(cl)
+    missing = [t for t in only if t not in found]
+    if missing:
+        raise ScanError("lost anchor: %s: no ensures clause tagged %s in the exporting contract" % (what, ", ".join(missing)))
+    return "\n".join(out)
+
+
+def emit_import(u: Unit, d: str):
+    """`//@ import <unit> :: <impl-header regex | -> :: <fn name> [:: opt=value ..]`
+
+    Modular link ACROSS units.  The fn is under contract in units/<unit>.vxu (a `//@ fn` block proves the contract on the real
+    body).  Here its SIGNATURE is re-extracted from the repository exactly as for a stubbed fn (rewrite options of the
+    exporting directive, overridden / extended by the options given here) and emitted as `#[verifier::external_body]`
+    under the exporting block's `//@ spec` text VERBATIM, obligation tags stripped.  Nothing is copied by hand, so the
+    text a caller is checked against IS the text that is proved.  The spec functions the contract mentions must be in
+    scope (shared `//@ include` files).  Import-only option: `only=tag1,tag2` (see select_ensures).
+    The exporting block is the one with this fn name whose impl header (as found in the source) matches the regex."""
+    segs = [x.strip() for x in split_top(d[len("import"):].strip())]
+    if len(segs) < 3:
+        raise ScanError("bad import directive: " + d)
+    exp_unit, imp_pat, name = segs[0], segs[1], segs[2]
+    iopts = parse_opts(segs[3:])
+    what = "import %s :: %s :: %s" % (exp_unit, imp_pat, name)
+    if exp_unit == u.name:
+        raise ScanError("bad import directive (a unit cannot import from itself): " + d)
+    hits = []
+    for (fpath, epat, ename, espec, ln) in export_directives(exp_unit):
+        if ename != name:
+            continue
+        if epat == "-" or imp_pat == "-":
+            if epat == imp_pat:
+                hits.append((fpath, epat, espec, ln))
+            continue
+        src = source(fpath)
+        lo, hi = mod_range(src, espec.opts.get("mod", ""))
+        try:
+            hdr = src.find_impl_fn(epat, name, lo, hi).impl_header.header
+        except ScanError:
+            continue  # the exporting unit itself will report its lost anchor
+        if re.search(imp_pat, hdr):
+            hits.append((fpath, epat, espec, ln))
+    if len(hits) != 1:
+        raise ScanError("lost anchor: %s (%d matching `//@ fn` blocks in units/%s.vxu)" % (what, len(hits), exp_unit))
+    fpath, epat, espec, ln = hits[0]
+    if not espec.spec.strip():
+        raise ScanError("lost anchor: %s: the exporting block (units/%s.vxu:%d) has no //@ spec" % (what, exp_unit, ln))
+    only = [x.strip() for x in iopts.pop("only", "").split(",") if x.strip()]
+    spec = FnSpec()
+    spec.opts = {k: v for k, v in espec.opts.items() if k != "loop_iter"}
+    spec.opts.update(iopts)
+    text = select_ensures(espec.spec, only, what) if only else espec.spec
+    spec.spec = strip_obligation_tags(text)
+    imp = {"unit": exp_unit, "name": name, "only": only, "line": ln}
+    key = emit_fn(u, fpath, epat, name, spec, False, None, imp=imp)
+    hdr_of = None if epat == "-" else source(fpath).find_impl_fn(epat, name, *mod_range(source(fpath), espec.opts.get("mod", ""))).impl_header.header
+    imp.update({"export_key": fn_key(hdr_of, espec.opts.get("as", name)), "file": fpath, "key": key,
+                "spec_sha": hashlib.sha256(espec.spec.encode()).hexdigest()[:12]})
+    u.imports[key] = imp
+    u.items.append({"kind": "import", "name": name, "impl": hdr_of, "file": fpath, "from": exp_unit,
+                    "rewrites": ["IMPORTED from unit %s (units/%s.vxu:%d)%s" % (exp_unit, exp_unit, ln, ", only=" + ",".join(only) if only else "")],
+                    "sha": imp["spec_sha"], "contracted": True, "emitted_name": spec.opts.get("as", name)})
 
 
 def indent(t: str, pre: str) -> str:
